@@ -350,7 +350,9 @@ func c02Small(c *Ctx, po bool, N int, ringQ, ringP *ring.Ring, ch c02Chain) {
 				}
 				c.Probe("extsmall_out_of_place", args, "C02/ExtendBasisSmallNormAndCenter/out-of-place-wrong", d)
 			}
-			if inContract {
+			{
+				// the P limbs must be the centred value modulo p_i — also when |x| exceeds p_i (since repair
+				// C03-9 of /repo the code reduces |x| modulo p_i; before, p_i - |x| wrapped on uint64)
 				d := ""
 				for i, p := range ch.P[:levelP+1] {
 					for j := range xs {
@@ -360,9 +362,12 @@ func c02Small(c *Ctx, po bool, N int, ringQ, ringP *ring.Ring, ch c02Chain) {
 						}
 					}
 				}
-				c.Probe("extsmall_same_integer", args, "C02/ExtendBasisSmallNormAndCenter/different-integer", d)
-			} else {
-				c.Count("extsmall:outside-contract(|x|>p_i, uint64 wrap)")
+				if inContract {
+					c.Probe("extsmall_same_integer", args, "C02/ExtendBasisSmallNormAndCenter/different-integer", d)
+				} else {
+					c.Count("extsmall:|x|>p_i")
+					c.Probe("extsmall_large_centred_value", args, "C02/ExtendBasisSmallNormAndCenter/not-centred-value-mod-p", d)
+				}
 			}
 			// NTT + Montgomery variant of core/rlwe/utils.go
 			if cls != "large" {
